@@ -44,6 +44,7 @@ type FuncContract struct {
 	Ensures   []*Clause
 	Decreases *Clause
 	Covers    []*Clause
+	Assumes   []*Clause // postconditions assumed at call sites but not checked in the body (listed as assumptions)
 	Loops     map[string]*LoopSpec
 	Flags     map[string]bool
 	Modifies  []string
@@ -87,7 +88,7 @@ type ContractFile struct {
 
 var clauseKeywords = map[string]bool{"func": true, "props": true, "requires": true, "ensures": true, "decreases": true,
 	"loop": true, "pure": true, "trusted": true, "maypanic": true, "nosafety": true, "inline": true, "modifies": true,
-	"cover": true, "spec": true, "axiom": true, "lemma": true, "opaque": true, "noframe": true, "readonly": true, "opaque_strings": true}
+	"cover": true, "assumes": true, "spec": true, "axiom": true, "lemma": true, "opaque": true, "noframe": true, "readonly": true, "opaque_strings": true, "string_len_bound": true}
 
 func ParseContractFile(path, pkg string) (*ContractFile, error) {
 	data, err := os.ReadFile(path)
@@ -132,7 +133,7 @@ func ParseContractFile(path, pkg string) (*ContractFile, error) {
 				return nil, fail(fmt.Errorf("props outside func"))
 			}
 			cur.Props = strings.Fields(rest)
-		case "requires", "ensures", "decreases", "cover":
+		case "requires", "ensures", "decreases", "cover", "assumes":
 			if cur == nil {
 				return nil, fail(fmt.Errorf("%s outside func", kw))
 			}
@@ -147,6 +148,8 @@ func ParseContractFile(path, pkg string) (*ContractFile, error) {
 				cur.Ensures = append(cur.Ensures, cl)
 			case "cover":
 				cur.Covers = append(cur.Covers, cl)
+			case "assumes":
+				cur.Assumes = append(cur.Assumes, cl)
 			default:
 				cur.Decreases = cl
 			}
@@ -169,7 +172,7 @@ func ParseContractFile(path, pkg string) (*ContractFile, error) {
 				cur.Loops[ord] = ls
 			}
 			ls.Invariants = append(ls.Invariants, cl)
-		case "pure", "trusted", "maypanic", "nosafety", "inline", "noframe", "readonly", "opaque_strings":
+		case "pure", "trusted", "maypanic", "nosafety", "inline", "noframe", "readonly", "opaque_strings", "string_len_bound":
 			if cur == nil {
 				return nil, fail(fmt.Errorf("%s outside func", kw))
 			}
